@@ -97,6 +97,14 @@ func NewKeysAndCert(
 	pubKeySize := keyCertificate.CryptoSize()
 	sigKeySize := keyCertificate.SigningPublicKeySize()
 
+	// A size of 0 means the key type is unknown: such a KeysAndCert cannot be parsed back.
+	if pubKeySize == 0 {
+		return nil, oops.Errorf("unknown crypto key type: %d", keyCertificate.PublicKeyType())
+	}
+	if sigKeySize == 0 {
+		return nil, oops.Errorf("unknown signing key type: %d", keyCertificate.SigningPublicKeyType())
+	}
+
 	// Validate public key size
 	if err := validatePublicKeySize(publicKey, pubKeySize); err != nil {
 		return nil, err
@@ -160,14 +168,20 @@ func validateRequiredFields(kac *KeysAndCert) error {
 // the sizes declared by the KeyCertificate.
 func validateKeySizes(kac *KeysAndCert) error {
 	expectedCryptoSize := kac.KeyCertificate.CryptoSize()
-	if expectedCryptoSize > 0 && kac.ReceivingPublic.Len() != expectedCryptoSize {
+	if expectedCryptoSize == 0 {
+		return oops.Errorf("unknown crypto key type: %d", kac.KeyCertificate.PublicKeyType())
+	}
+	if kac.ReceivingPublic.Len() != expectedCryptoSize {
 		return oops.Errorf(
 			"ReceivingPublic key size mismatch: certificate declares %d bytes, key has %d bytes",
 			expectedCryptoSize, kac.ReceivingPublic.Len(),
 		)
 	}
 	expectedSigSize := kac.KeyCertificate.SigningPublicKeySize()
-	if expectedSigSize > 0 && kac.SigningPublic.Len() != expectedSigSize {
+	if expectedSigSize == 0 {
+		return oops.Errorf("unknown signing key type: %d", kac.KeyCertificate.SigningPublicKeyType())
+	}
+	if kac.SigningPublic.Len() != expectedSigSize {
 		return oops.Errorf(
 			"SigningPublic key size mismatch: certificate declares %d bytes, key has %d bytes",
 			expectedSigSize, kac.SigningPublic.Len(),
